@@ -45,7 +45,11 @@ def run(ctx):
                           workers=1 if q else 8, coverage=True)
     walks = ctx.tlc_gen("MC_GraphStore", GEN.format(maxn=3, maxe=3, labels=L2, types=T2, vals='{"v1", "v2"}', maxh=30, full="TRUE", kf="FALSE",
                                                     view="", emit="", inv="SimEmit"), "walks", simulate=(300 if q else 6000, 31), workers=4)
-    ctx.assume("ids <= 3; labels {A,B}; types {T,U}; one property key p; stub relationships are created between live nodes only",
+    # four nodes / four relationships, one label, one type, no compaction: nodes with three and more neighbours (adjacency lists
+    # that are kept sorted and binary-searched only show a lost order from three entries on)
+    hubs = ctx.tlc_gen("MC_GraphStore", GEN.format(maxn=4, maxe=4, labels=L1, types=T1, vals='{"v1"}', maxh=18, full="FALSE", kf="FALSE",
+                                                   view="", emit="", inv="SimEmit"), "hubs", simulate=(400 if q else 6000, 19), workers=4)
+    ctx.assume("ids <= 3 (<= 4 in the hub walks); labels {A,B}; types {T,U}; one property key p; stub relationships are created between live nodes only",
                "while a bulk load is open (stub inserted, finish_bulk_load not yet called) the type index and relationships-between "
                "lookups are not checked")
     sp = ctx.write_scripts("cover", scripts)
@@ -54,3 +58,6 @@ def run(ctx):
     sp = ctx.write_scripts("walks", walks)
     tr = ctx.run_harness("gstore", sp, name="walks", args=["maxn=3", "maxe=3"])
     ctx.validate("GraphStore_Trace", TRACE.format(maxn=3, maxe=3), tr, name="walks", corrupt=corrupt_field("nodeCount"))
+    sp = ctx.write_scripts("hubs", hubs)
+    tr = ctx.run_harness("gstore", sp, name="hubs", args=["maxn=4", "maxe=4"])
+    ctx.validate("GraphStore_Trace", TRACE.format(maxn=4, maxe=4), tr, name="hubs", corrupt=corrupt_field("nodeCount"))
